@@ -21,6 +21,10 @@ constexpr bool post_hypot(fixed_t a, fixed_t b, fixed_t r) { return r.v >= 0 && 
 constexpr bool pre_c14_acc(fixed_t a, fixed_t b, int L)
   { if( !pre_c14(a, b) || b.v < 0 || a.v < b.v ) return false;      // 0 <= b <= a: the general case follows by the symmetry lemma (c14.symmetry.cut)
     return L == 0 ? a.v == 0 : (a.v >> (L - 1)) == 1; }
+// the 48 slices cover the ordered non-negative domain: every 0 <= b <= a < 2^31 lies in slice L = bit length of a.v
+constexpr bool pre_c14_ordered(fixed_t a, fixed_t b) { return pre_c14(a, b) && b.v >= 0 && a.v >= b.v; }
+constexpr bool lem_c14_slices_cover(fixed_t a, fixed_t b)
+  { int const L = a.v == 0 ? 0 : 64 - __builtin_clzl(static_cast<unsigned long>(a.v)); return L >= 0 && L <= 47 && pre_c14_acc(a, b, L); }
 constexpr bool vf_hypot_small(fixed_t a, fixed_t b) { return a.v > -(1l << 30) && a.v < (1l << 30) && b.v > -(1l << 30) && b.v < (1l << 30); }
 // h is not too small: T - h <= 2 resp. <= 1.5e-4 T
 constexpr bool post_hypot_acc_lo(fixed_t a, fixed_t b, fixed_t h)
